@@ -14,7 +14,7 @@ Only property theorems live here (each is audited with `#print axioms`); the mod
 `specTransform`) is `RuschmSpec/Macro.lean`, helper lemmas are in
 `RuschmProofs/Macro{Lemmas,Match,Subst}.lean`.
 -/
-import RuschmProofs.MacroMatch
+import RuschmProofs.MacroSubst
 
 namespace Ruschm.C04
 open Ruschm Ruschm.Macro Ruschm.Macro.Ex
@@ -384,5 +384,122 @@ example : (properElems (lst [lst [sy "x", num 1], lst [sy "y", num 2]])).bind
     (properElems (lst [])).bind
       (fun ds => (mapOpt (specMatch [] (plist [.ident "name", .ident "val"])) ds).bind combine) = none :=
   ⟨rfl, rfl, rfl⟩
+
+/-! ## 3. The template is filled as the declarative instantiation says -/
+
+/-- For a supported rule and the bindings of a successful match of its pattern against `d`, with
+fuel `≥ d.size`: `subst` yields the declarative instantiation — every variable replaced by what
+it matched, every ellipsis sub-template repeated once per matched item, in order. -/
+theorem subst_eq_spec {lits p t d β fuel loc} (hr : SupportedRule lits (p, t) = true)
+    (hm : specMatch lits p d = some β) (hfu : d.size ≤ fuel) :
+    subst fuel t β.toSubst loc = some (specInst t β loc) :=
+  subst_of_match hr hm hfu
+
+example : SupportedRule [] (plist [plist [plist [.ident "name", .ident "val"], .ellipsis],
+        .ident "body", .ellipsis],
+      .list [(.list [(.ident "lambda", false), (.list [(.ident "name", true)], false),
+        (.ident "body", true)], false), (.ident "val", true)]) = true ∧
+    specInst (.list [(.list [(.ident "lambda", false), (.list [(.ident "name", true)], false),
+        (.ident "body", true)], false), (.ident "val", true)])
+      [("name", [sy "x", sy "y"]), ("val", [num 1, num 2]), ("body", [sy "x"])] none =
+      lst [lst [sy "lambda", lst [sy "x", sy "y"], sy "x"], num 1, num 2] := ⟨rfl, rfl⟩
+
+/-- The general form, for ANY table: on a well-formed template (`Tmpl.wf`: every element followed
+by an ellipsis has no nested ellipsis and mentions a variable of the table) and with more fuel
+than the longest sequence of further matches, `subst` is the declarative instantiation under the
+bindings the table represents. (Plain elements may mention ellipsis variables: they get the first
+match; sub-templates mixing ellipses of different lengths stop at the shortest — both excluded
+from `SupportedTmpl`, which is what R7RS allows.) -/
+theorem subst_eq_spec_table {t σ fuel loc} (hwf : t.wf (Subst.keys σ) = true)
+    (hfu : ∀ e ∈ σ, e.2.2.length < fuel) :
+    subst fuel t σ loc = some (specInst t σ.toBindings loc) :=
+  (subst_spec σ loc fuel hfu).1 t hwf
+
+example : (Tmpl.list [(.ident "a", true), (.ident "a", false)]).wf
+      (Subst.keys [("a", num 1, [num 2, num 3])]) = true ∧
+    subst 3 (Tmpl.list [(.ident "a", true), (.ident "a", false)]) [("a", num 1, [num 2, num 3])] none =
+      some (lst [num 1, num 2, num 3, num 1]) := ⟨rfl, rfl⟩
+
+/-- In the class `subst` does not run out of fuel: `d.size` units suffice after a match against
+`d` (the copy loop makes at most as many copies as `d` has items). -/
+theorem subst_terminates {lits p t d β fuel loc} (hr : SupportedRule lits (p, t) = true)
+    (hm : specMatch lits p d = some β) (hfu : d.size ≤ fuel) :
+    (subst fuel t β.toSubst loc).isSome = true := by
+  rw [subst_eq_spec hr hm hfu]; rfl
+
+example : (subst 2 (Tmpl.list [(.ident "a", true)]) [("a", num 1, [num 2, num 3])] none).isSome = false ∧
+    (subst 3 (Tmpl.list [(.ident "a", true)]) [("a", num 1, [num 2, num 3])] none).isSome = true :=
+  ⟨rfl, rfl⟩
+
+/-- full-strength statement (all templates): FALSE -/
+def subst_terminates_full : Prop :=
+  ∀ (t : Tmpl) (σ : Subst) (loc : Loc), ∃ fuel, (subst fuel t σ loc).isSome = true
+
+/-- A sub-template without pattern variable followed by an ellipsis, `(5 ...)`: the copy loop of
+the Rust code never ends (the model runs out of any amount of fuel). -/
+theorem subst_terminates_full_fails : ¬ subst_terminates_full := fun h => by
+  obtain ⟨fuel, hf⟩ := h (.list [(.prim (.int 5), true)]) [] none
+  simp [subst, substElems, substItemLoop_prim] at hf
+
+/-- full-strength statement (all templates, some fuel): FALSE, same witness -/
+def subst_eq_spec_full : Prop :=
+  ∀ (t : Tmpl) (σ : Subst) (loc : Loc), ∃ fuel,
+    subst fuel t σ loc = some (specInst t σ.toBindings loc)
+
+theorem subst_eq_spec_full_fails : ¬ subst_eq_spec_full := fun h =>
+  subst_terminates_full_fails fun t σ loc => by
+    obtain ⟨fuel, hf⟩ := h t σ loc
+    exact ⟨fuel, by rw [hf]; rfl⟩
+
+/-! ## 6. No silent mis-expansion -/
+
+/-- For a supported rule set and enough fuel (`p.size + use.size` for every pattern `p`), the
+expander IS the declarative expander: … -/
+theorem transform_eq_spec {fuel r use} (hs : SupportedRules r = true)
+    (hf : ∀ rule ∈ r.rules, rule.1.size + use.size ≤ fuel) :
+    transform fuel r use = specTransform r.literals r.rules use :=
+  transformRules_eq_spec r.rules (by simpa [SupportedRules] using hs) hf
+
+example : SupportedRules ⟨["k"], [(plist [.ident "k", .ident "x"], .ident "x"),
+      (plist [.ident "x", .ellipsis], .list [(.ident "x", true)])]⟩ = true ∧
+    specTransform ["k"] [(plist [.ident "k", .ident "x"], .ident "x"),
+      (plist [.ident "x", .ellipsis], .list [(.ident "x", true)])] (lst [sy "k", num 1]) = .ok (num 1) ∧
+    specTransform ["k"] [(plist [.ident "k", .ident "x"], .ident "x"),
+      (plist [.ident "x", .ellipsis], .list [(.ident "x", true)])] (lst [sy "j", num 1]) =
+      .ok (lst [sy "j", num 1]) := ⟨rfl, rfl, rfl⟩
+
+/-- … so the result is either the declarative instantiation of the FIRST rule (in textual order)
+whose pattern declaratively matches the use, or — exactly when no rule matches — the syntax
+error; never anything else. -/
+theorem no_silent_misexpansion {fuel r use} (hs : SupportedRules r = true)
+    (hf : ∀ rule ∈ r.rules, rule.1.size + use.size ≤ fuel) :
+    (∃ pre p t post β, r.rules = pre ++ (p, t) :: post ∧
+      (∀ q ∈ pre, specMatch r.literals q.1 use = none) ∧ specMatch r.literals p use = some β ∧
+      transform fuel r use = .ok (specInst t β use.loc)) ∨
+    ((∀ q ∈ r.rules, specMatch r.literals q.1 use = none) ∧
+      transform fuel r use = .error (.syntax, none)) := by
+  rw [transform_eq_spec hs hf]
+  exact specTransform_cases r.literals r.rules use
+
+example : transform 20 ⟨[], [(plist [.prim (.int 1)], .ident "one")]⟩ (lst [num 2]) =
+    .error (.syntax, none) := rfl
+
+/-- full-strength statement (all rule sets): FALSE -/
+def no_silent_misexpansion_full : Prop :=
+  ∀ (fuel : Nat) (r : Rules) (use : Datum),
+    (∀ rule ∈ r.rules, rule.1.size + use.size ≤ fuel) →
+    transform fuel r use = specTransform r.literals r.rules use
+
+/-- Outside the class there are silent mis-expansions: with the rule
+`((m a ... z) '(a ... z))`-like `(a ... z) ⇒ (a ... z)`, the use `(1 2 3)` expands to
+`(1 2 3 3)`. -/
+theorem no_silent_misexpansion_full_fails : ¬ no_silent_misexpansion_full := fun h => by
+  have := h 30 ⟨[], [(plist [.ident "a", .ellipsis, .ident "z"],
+    .list [(.ident "a", true), (.ident "z", false)])]⟩ (lst [num 1, num 2, num 3]) (by decide)
+  cases this
+
+example : transform 30 ⟨[], [(plist [.ident "a", .ellipsis, .ident "z"],
+    .list [(.ident "a", true), (.ident "z", false)])]⟩ (lst [num 1, num 2, num 3]) =
+    .ok (lst [num 1, num 2, num 3, num 3]) := rfl
 
 end Ruschm.C04
